@@ -292,6 +292,7 @@ inductive Token where
   | word (s : Str)
   | stack (upr lwr : Str) (t : Str)
   | space | nbsp | tab | newParagraph | newColumn | wrapAtDimline
+  | props (cmd : Str)     -- PROPERTIES_CHANGED (only with `yield_property_commands=True`): the command text
   deriving Repr, DecidableEq
 
 /-! ### parse_stacking -/
@@ -619,11 +620,81 @@ decreasing_by
     | (apply Prod.Lex.left; show _ < _; (try simp only [List.length_cons]); omega)
     | (apply Prod.Lex.right; show _ < _; (try simp only [List.length_cons, List.length_nil]); omega)
 
+/-- the same with `yield_property_commands=True`: a PROPERTIES_CHANGED token carries the text of every
+    accepted command (`scan` is this function with those tokens removed: `Lemmas/TextTokens.scanY_erase`).
+    Original description: `next_token` + the generator loop merged: `rest` is the scanner tail, `word` the word being
+    collected.  The lexicographic measure (rest, word) reflects the real control flow: a WORD is
+    returned *without consuming* in front of a backslash or brace, and the next call, now with an
+    empty word, consumes.  Special characters of the "%%c" kind are appended to the word; that
+    they are neither blank nor brace nor control is a checked fact about the generated table
+    (Props/C20 `special_letters_plain`). -/
+def scanY (sp : Special) (rest word : Str) : Except PyErr (List Token) :=
+  match hr : rest with
+  | [] => .ok (if word.isEmpty then [] else [.word word])
+  | letter :: r1 =>
+    if letter = '\\' then
+      match hr1 : r1 with
+      | [] =>
+        -- peek(1) = "" and `"" in "\\{}"`: escape; letter = "" < " " becomes a blank
+        .ok (wordAnd word .space)
+      | d :: r2 =>
+        if d = '\\' ∨ d = '{' ∨ d = '}' then
+          scanY sp r2 (word ++ [d])               -- escaped letter
+        else if hw : word ≠ [] then
+          have : 0 < word.length := List.length_pos_iff.mpr hw
+          (fun ts => Token.word word :: ts) <$> scanY sp (letter :: d :: r2) []
+        else if d = '~' then (fun ts => Token.nbsp :: ts) <$> scanY sp r2 []
+        else if d = 'P' then (fun ts => Token.newParagraph :: ts) <$> scanY sp r2 []
+        else if d = 'N' then (fun ts => Token.newColumn :: ts) <$> scanY sp r2 []
+        else if d = 'X' then (fun ts => Token.wrapAtDimline :: ts) <$> scanY sp r2 []
+        else if d = 'S' then
+          match he : extractExpr true r2 with
+          | (expr, r3) =>
+            have : r3.length ≤ r2.length := extractExpr_len' _ _ he
+            (fun ts => parseStacking expr :: ts) <$> scanY sp r3 []
+        else
+          match hp : parseProperties d r2 with
+          | none => scanY sp r2 (word ++ ['\\', d])   -- UnknownCommand: verbatim
+          | some (.error e) => .error e
+          | some (.ok r3) =>
+            have : r3.length ≤ r2.length := parseProperties_len hp
+            -- `return PROPERTIES_CHANGED, scanner.substr2(cmd_start_index, scanner.index())` (word is empty here)
+            (fun ts => Token.props ('\\' :: d :: r2.take (r2.length - r3.length)) :: ts) <$> scanY sp r3 []
+    else
+      -- control chars (caret decoding already done)
+      if letter = '\t' then (fun ts => wordAnd word .tab ++ ts) <$> scanY sp r1 []
+      else if letter = '\n' then (fun ts => wordAnd word .newParagraph ++ ts) <$> scanY sp r1 []
+      else if letter.toNat < 32 then (fun ts => wordAnd word .space ++ ts) <$> scanY sp r1 []
+      else
+        match hs : specialAt sp letter r1 with
+        | some (l, r3) =>
+          have : r3.length < r1.length := specialAt_len hs
+          scanY sp r3 (word ++ [l])
+        | none =>
+          if letter = ' ' then (fun ts => wordAnd word .space ++ ts) <$> scanY sp r1 []
+          else if letter = '{' ∨ letter = '}' then
+            if hw : word ≠ [] then
+              have : 0 < word.length := List.length_pos_iff.mpr hw
+              (fun ts => Token.word word :: ts) <$> scanY sp (letter :: r1) []
+            else scanY sp r1 []
+          else scanY sp r1 (word ++ [letter])
+termination_by (rest.length, word.length)
+decreasing_by
+  all_goals simp_wf
+  all_goals subst_vars
+  all_goals first
+    | (apply Prod.Lex.left; show _ < _; (try simp only [List.length_cons]); omega)
+    | (apply Prod.Lex.right; show _ < _; (try simp only [List.length_cons, List.length_nil]); omega)
+
+def parseY (sp : Special) (text : Str) : Except PyErr (List Token) := scanY sp (caretDecode text) []
+
 def parse (sp : Special) (text : Str) : Except PyErr (List Token) := scan sp (caretDecode text) []
 
-/-- `plain_mtext(text, split=True)` on a token list, `tabsize = 4` -/
+/-- `plain_mtext(text, split=True)` on a token list, `tabsize = 4`.  After the fix of F16 the last
+    paragraph is always part of the result, also when it is empty (`content.append("".join(paragraph))`
+    without the former `if paragraph:`), as in `fast_plain_mtext`. -/
 def plainOfTokens : List Token → Str → List Str
-  | [], para => if para.isEmpty then [] else [para]
+  | [], para => [para]
   | t :: ts, para =>
     match t with
     | .word w => plainOfTokens ts (para ++ w)
@@ -631,9 +702,586 @@ def plainOfTokens : List Token → Str → List Str
     | .newParagraph | .newColumn => para :: plainOfTokens ts []
     | .tab => plainOfTokens ts (para ++ "    ".toList)
     | .stack u l d => plainOfTokens ts (para ++ u ++ d ++ l)
-    | .wrapAtDimline => plainOfTokens ts para
+    | .wrapAtDimline | .props _ => plainOfTokens ts para
 
 def plainMText (sp : Special) (text : Str) : Except PyErr (List Str) :=
   (fun ts => plainOfTokens ts []) <$> parse sp text
+
+/-- `"\n".join(content)` -/
+def joinNL : List Str → Str
+  | [] => []
+  | [p] => p
+  | p :: q :: l => p ++ '\n' :: joinNL (q :: l)
+
+/-- `plain_mtext(text)` (split=False) -/
+def plainMTextStr (sp : Special) (text : Str) : Except PyErr Str :=
+  joinNL <$> plainMText sp text
+
+/-- `fast_plain_mtext(text, split=True)`: `result.split("\n")` -/
+def splitNL : Str → List Str
+  | [] => [[]]
+  | c :: r =>
+    if c = '\n' then [] :: splitNL r
+    else match splitNL r with
+      | [] => [[c]]            -- not reachable: `splitNL` never returns []
+      | p :: l => (c :: p) :: l
+
+/-! ### the class of contents on which `fast_plain_mtext` and `plain_mtext` agree
+
+`agreeClass sp d` is a decidable recogniser on the caret-DECODED content `d` (both decoders start with
+`caret_decode`, so every caret sequence is covered by stating the class on the decoded text):
+
+  * every character `≥ U+0020` and LF, except the syntax characters `\ { } %` (blank and `^` included);
+  * unbalanced or balanced group braces `{`, `}`;
+  * the escapes `\\`, `\{`, `\}`;
+  * the one letter commands `\P \L \l \O \o \K \k \X`;
+  * stacking `\S…;` whose expression has no backslash and no control character;
+  * every command with arguments `\A \C \c \H \W \T \Q \p \f \F` for which the parser consumes exactly
+    the text up to and including the first semicolon (`cmdAgree`; `Lemmas/Text` shows that the
+    well-formed shapes `\H<float>[x];`, `\C<digits>;`, `\A<c>;`, `\f<no ;>;`, `\p<no ;>;` … satisfy it);
+  * `%` not followed by `%`; `%%c` with `c` in SPECIAL_CHAR_ENCODING; `%%c` with `c` an ordinary character;
+  * an unknown command (`\z`, `\:`, `\1` …) when no ";" follows anywhere: both print it verbatim.
+
+Excluded, because the decoders genuinely differ there (counterexample theorems in Props/C20):
+`\~`, `\N`, TAB and the other control characters, a backslash at the end, unknown commands such as `\z` in front
+of a later ";", `\;`, unterminated known commands, arguments that the parser does not accept in full (`\H1a;`), a backslash
+inside a stacking expression, `%%` at the end and `%%%`. -/
+
+def isCopy (c : Char) : Bool :=
+  (decide (32 ≤ c.toNat) || c == '\n') && c != '\\' && c != '{' && c != '}' && c != '%'
+
+def stackPlainChar (c : Char) : Bool := decide (32 ≤ c.toNat) && c != '\\'
+
+/-- the parser (`parse_properties`) and `fast_plain_mtext` skip the same text: everything up to and
+    including the first ";" -/
+def cmdAgree (d : Char) (r2 : Str) : Option Str :=
+  match parseProperties d r2, findIdx ';' r2 with
+  | some (.ok r3), some i => if r2.drop (i + 1) = r3 then some r3 else none
+  | _, _ => none
+
+theorem cmdAgree_len {d : Char} {r2 r3 : Str} (h : cmdAgree d r2 = some r3) : r3.length ≤ r2.length := by
+  unfold cmdAgree at h
+  split at h
+  · split at h
+    · cases h; rename_i heq; rw [← heq]; simp
+    · cases h
+  · cases h
+
+def agreeClass (sp : Special) (s : Str) : Bool :=
+  match s with
+  | [] => true
+  | c :: r =>
+    if c = '\\' then
+      match r with
+      | [] => false
+      | d :: r2 =>
+        if d = '\\' ∨ d = '{' ∨ d = '}' then agreeClass sp r2
+        else if d = 'N' ∨ d = '~' then false
+        else if d ∈ oneCharCommands then agreeClass sp r2
+        else if d = 'S' then
+          match findIdx ';' r2 with
+          | some i => (r2.take i).all stackPlainChar && agreeClass sp (r2.drop (i + 1))
+          | none => false
+        else
+          match hc : cmdAgree d r2 with
+          | some r3 =>
+            have : r3.length ≤ r2.length := cmdAgree_len hc
+            agreeClass sp r3
+          | none =>
+            -- an unknown command (`\z`, `\:` …) without any later ";" is printed verbatim by both
+            if (parseProperties d r2).isNone ∧ d ≠ ';' ∧ findIdx ';' r2 = none then agreeClass sp r2
+            else false
+    else if c = '{' ∨ c = '}' then agreeClass sp r
+    else if c = '%' then
+      match r with
+      | [] => true
+      | p :: r2 =>
+        if p = '%' then
+          match r2 with
+          | [] => false
+          | code :: r3 =>
+            if (sp code).isSome then agreeClass sp r3
+            else isCopy code && agreeClass sp r3
+        else agreeClass sp (p :: r2)
+    else (decide (32 ≤ c.toNat) || c == '\n') && agreeClass sp r
+termination_by s.length
+decreasing_by
+  all_goals simp_wf
+  all_goals try simp only [List.length_drop]
+  all_goals try omega
+
+/-- the tokens as one string: what `"\n".join(plain_mtext(.., split=True))` makes of them -/
+def flat : List Token → Str
+  | [] => []
+  | t :: ts =>
+    match t with
+    | .word w => w ++ flat ts
+    | .space | .nbsp => ' ' :: flat ts
+    | .newParagraph | .newColumn => '\n' :: flat ts
+    | .tab => "    ".toList ++ flat ts
+    | .stack u l d => u ++ d ++ l ++ flat ts
+    | .wrapAtDimline | .props _ => flat ts
+
+/-- plain content: no control characters and none of the characters that start MTEXT syntax -/
+def isPlain (c : Char) : Bool :=
+  decide (32 ≤ c.toNat) && c != '\\' && c != '{' && c != '}' && c != '%' && c != '^'
+
+/-! ### `plain_mtext` as one function on strings
+
+`slowLoop` is the string-level meaning of `MTextParser` + `plain_mtext` for EVERY decoded content: no
+tokens, no word under construction, no follow-up token; `Lemmas/TextSpec.lean` proves that the token
+machinery (`scan`, `plainOfTokens`) computes exactly this function.  Differences to `fastLoop` are
+visible line by line (`\~`, `\N`, TAB, control characters, trailing backslash, arguments, unknown
+commands, `%%`). -/
+
+def stackText : Token → Str
+  | .stack u l d => u ++ d ++ l
+  | _ => []
+
+def slowLoop (sp : Special) (s : Str) : Str :=
+  match s with
+  | [] => []
+  | c :: r =>
+    if c = '\\' then
+      match r with
+      | [] => [' ']                                  -- backslash at the end: a blank
+      | d :: r2 =>
+        if d = '\\' ∨ d = '{' ∨ d = '}' then d :: slowLoop sp r2
+        else if d = '~' then ' ' :: slowLoop sp r2
+        else if d = 'P' ∨ d = 'N' then '\n' :: slowLoop sp r2
+        else if d = 'X' then slowLoop sp r2
+        else if d = 'S' then
+          match he : extractExpr true r2 with
+          | (expr, r3) =>
+            have : r3.length ≤ r2.length := extractExpr_len' _ _ he
+            stackText (parseStacking expr) ++ slowLoop sp r3
+        else
+          match hp : parseProperties d r2 with
+          | some (.ok r3) =>
+            have : r3.length ≤ r2.length := parseProperties_len hp
+            slowLoop sp r3                           -- a command: removed with the argument it accepts
+          | _ => '\\' :: d :: slowLoop sp r2         -- unknown command: verbatim
+    else if c = '\t' then ' ' :: ' ' :: ' ' :: ' ' :: slowLoop sp r
+    else if c = '\n' then '\n' :: slowLoop sp r
+    else if c.toNat < 32 then ' ' :: slowLoop sp r
+    else
+      match hs : specialAt sp c r with
+      | some (l, r3) =>
+        have : r3.length < r.length := specialAt_len hs
+        l :: slowLoop sp r3
+      | none =>
+        if c = '{' ∨ c = '}' then slowLoop sp r else c :: slowLoop sp r
+termination_by s.length
+decreasing_by
+  all_goals simp_wf
+  all_goals omega
+
+/-! ### `plain_mtext(.., split=True)`: the same with paragraph breaks as `none`
+
+A paragraph break (`\\P`, `\\N`, a LF character) is `none`, every character of a word is `some c` - also a
+LF that is part of a word (the verbatim unknown command `\\<LF>`); the paragraphs are the pieces between
+the `none`s.  `fast_plain_mtext(.., split=True)` splits at every LF of its result. -/
+
+def slowItems (sp : Special) (s : Str) : List (Option Char) :=
+  match s with
+  | [] => []
+  | c :: r =>
+    if c = '\\' then
+      match r with
+      | [] => [some ' ']
+      | d :: r2 =>
+        if d = '\\' ∨ d = '{' ∨ d = '}' then some d :: slowItems sp r2
+        else if d = '~' then some ' ' :: slowItems sp r2
+        else if d = 'P' ∨ d = 'N' then none :: slowItems sp r2
+        else if d = 'X' then slowItems sp r2
+        else if d = 'S' then
+          match he : extractExpr true r2 with
+          | (expr, r3) =>
+            have : r3.length ≤ r2.length := extractExpr_len' _ _ he
+            (stackText (parseStacking expr)).map some ++ slowItems sp r3
+        else
+          match hp : parseProperties d r2 with
+          | some (.ok r3) =>
+            have : r3.length ≤ r2.length := parseProperties_len hp
+            slowItems sp r3
+          | _ => some '\\' :: some d :: slowItems sp r2   -- unknown command: verbatim (d may be LF: stays a character)
+    else if c = '\t' then some ' ' :: some ' ' :: some ' ' :: some ' ' :: slowItems sp r
+    else if c = '\n' then none :: slowItems sp r
+    else if c.toNat < 32 then some ' ' :: slowItems sp r
+    else
+      match hs : specialAt sp c r with
+      | some (l, r3) =>
+        have : r3.length < r.length := specialAt_len hs
+        some l :: slowItems sp r3
+      | none =>
+        if c = '{' ∨ c = '}' then slowItems sp r else some c :: slowItems sp r
+termination_by s.length
+decreasing_by
+  all_goals simp_wf
+  all_goals omega
+
+
+/-- the pieces between the breaks -/
+def splitNone : List (Option Char) → List Str
+  | [] => [[]]
+  | none :: r => [] :: splitNone r
+  | some c :: r =>
+    match splitNone r with
+    | [] => [[c]]           -- not reachable
+    | p :: l => (c :: p) :: l
+
+def itemsOfTokens : List Token → List (Option Char)
+  | [] => []
+  | t :: ts =>
+    match t with
+    | .word w => w.map some ++ itemsOfTokens ts
+    | .space | .nbsp => some ' ' :: itemsOfTokens ts
+    | .newParagraph | .newColumn => none :: itemsOfTokens ts
+    | .tab => some ' ' :: some ' ' :: some ' ' :: some ' ' :: itemsOfTokens ts
+    | .stack u l d => (u ++ d ++ l).map some ++ itemsOfTokens ts
+    | .wrapAtDimline | .props _ => itemsOfTokens ts
+
+/-! ### MTextEditor: the content the builder methods write
+
+Every method appends a fixed sequence of `Item`s; `Item.render` is the text written, `Item.expected` the
+plain text a decoder must return for it.  Float arguments are modelled by their Python text
+(`str(round(x, 3))`, `f"{x:g}"`): assumption "the text of a finite float matches RE_FLOAT completely"
+(`isFloatText`; checked on the real code for every generated value by the correspondence stream X3). -/
+
+inductive Item where
+  | plain (w : Str)                      -- text without syntax characters
+  | cmd (d : Char) (args : Str)          -- `\` d args `;`
+  | one (d : Char)                       -- `\P \L \l \O \o \K \k \X`
+  | openGroup | closeGroup
+  | stack (upr lwr : Str) (t : Char)     -- `\S` upr t lwr `;`  ("^ " is written for t = '^')
+  deriving Repr, DecidableEq
+
+def Item.render : Item → Str
+  | .plain w => w
+  | .cmd d args => '\\' :: d :: (args ++ [';'])
+  | .one d => ['\\', d]
+  | .openGroup => ['{']
+  | .closeGroup => ['}']
+  | .stack u l t => '\\' :: 'S' :: (u ++ ((if t = '^' then ['^', ' '] else [t]) ++ (l ++ [';'])))
+
+/-- the same after `caret_decode` ("^ " becomes "^") -/
+def Item.renderD : Item → Str
+  | .stack u l t => '\\' :: 'S' :: (u ++ (t :: (l ++ [';'])))
+  | i => i.render
+
+def Item.expected : Item → Str
+  | .plain w => w
+  | .cmd _ _ => []
+  | .one d => if d = 'P' then ['\n'] else []
+  | .openGroup | .closeGroup => []
+  | .stack u l t => u ++ t :: l
+
+/-- argument text: plain and without ";" -/
+def isArgChar (c : Char) : Bool := isPlain c && c != ';'
+
+/-- the complete text is one RE_FLOAT match -/
+def isFloatText (f : Str) : Bool := !f.isEmpty && decide (matchFloat f = (f, []))
+
+inductive EdOp where
+  | append (w : Str)
+  | font (name : Str) (bold italic : Bool)
+  | scaleHeight (f : Str) | height (f : Str) | widthFactor (f : Str) | charTrackingFactor (f : Str)
+  | oblique (f : Str)
+  | aci (ds : Str) | rgb (ds : Str)                 -- `color(name)` is `aci(MTEXT_COLOR_INDEX[name])`
+  | stack (upr lwr : Str) (t : Char)
+  | group (w : Str) | underline (w : Str) | overline (w : Str) | strikeThrough (w : Str)
+  | paragraph (args : Option Str)                   -- `props.tostring()`: "" or `\px` args `;`
+  | newParagraph                                    -- NEW_PARAGRAPH, NEW_LINE
+  | align (c : Char)                                -- ALIGN_BOTTOM / ALIGN_MIDDLE / ALIGN_TOP
+  | const (d : Char)                                -- UNDERLINE_START … STRIKE_STOP: `\L \l \O \o \K \k`
+  | groupStart | groupEnd
+  deriving Repr, DecidableEq
+
+def bit (b : Bool) : Char := if b then '1' else '0'
+
+def EdOp.items : EdOp → List Item
+  | .append w => [.plain w]
+  | .font name b i => [.cmd 'f' (name ++ ['|', 'b', bit b, '|', 'i', bit i])]
+  | .scaleHeight f => [.cmd 'H' (f ++ ['x'])]
+  | .height f => [.cmd 'H' f]
+  | .widthFactor f => [.cmd 'W' f]
+  | .charTrackingFactor f => [.cmd 'T' f]
+  | .oblique f => [.cmd 'Q' f]
+  | .aci ds => [.cmd 'C' ds]
+  | .rgb ds => [.cmd 'c' ds]
+  | .stack u l t => [.stack u l t]
+  | .group w => [.openGroup, .plain w, .closeGroup]
+  | .underline w => [.one 'L', .plain w, .one 'l']
+  | .overline w => [.one 'O', .plain w, .one 'o']
+  | .strikeThrough w => [.one 'K', .plain w, .one 'k']
+  | .paragraph none => []
+  | .paragraph (some a) => [.cmd 'p' ('x' :: a)]
+  | .newParagraph => [.one 'P']
+  | .align c => [.cmd 'A' [c]]
+  | .const d => [.one d]
+  | .groupStart => [.openGroup]
+  | .groupEnd => [.closeGroup]
+
+/-- arguments in range: words are plain, numbers are number texts -/
+def EdOp.wf : EdOp → Bool
+  | .append w | .group w | .underline w | .overline w | .strikeThrough w => w.all isPlain
+  | .font name _ _ => name.all isArgChar
+  | .scaleHeight f | .height f | .widthFactor f | .charTrackingFactor f | .oblique f => isFloatText f
+  | .aci ds | .rgb ds => ds.all isDigit
+  | .stack u l t => u.all isArgChar && l.all isArgChar && (t == '^' || t == '/' || t == '#')
+  | .paragraph none => true
+  | .paragraph (some a) => a.all isArgChar
+  | .newParagraph | .groupStart | .groupEnd => true
+  | .align c => c == '0' || c == '1' || c == '2'
+  | .const d => d == 'L' || d == 'l' || d == 'O' || d == 'o' || d == 'K' || d == 'k'
+
+def renderItems (is : List Item) : Str := (is.map Item.render).flatten
+def expectedItems (is : List Item) : Str := (is.map Item.expected).flatten
+
+/-- `str(editor)` after the method calls `ops` -/
+def editorText (ops : List EdOp) : Str := renderItems (ops.map EdOp.items).flatten
+/-- the words the caller put in, in order, paragraph breaks as LF -/
+def editorWords (ops : List EdOp) : Str := expectedItems (ops.map EdOp.items).flatten
+
+/-! ### MTextEditor, part 2: the constants on which the two decoders differ (TAB, NBSP, NEW_COLUMN) and
+    `bullet_list()`, which writes TABs -/
+
+inductive XItem where
+  | base (i : Item)
+  | tab            -- TAB = "^I": four blanks for `plain_mtext` (tabsize 4), the TAB character for `fast_plain_mtext`
+  | nbsp           -- NBSP = `\~`: a blank for `plain_mtext`
+  | newColumn      -- NEW_COLUMN = `\N`: LF for `plain_mtext`
+  deriving Repr, DecidableEq
+
+def XItem.render : XItem → Str
+  | .base i => i.render
+  | .tab => ['^', 'I']
+  | .nbsp => ['\\', '~']
+  | .newColumn => ['\\', 'N']
+
+def XItem.renderD : XItem → Str
+  | .base i => i.renderD
+  | .tab => ['\t']
+  | x => x.render
+
+def XItem.expectedSlow : XItem → Str
+  | .base i => i.expected
+  | .tab => [' ', ' ', ' ', ' ']
+  | .nbsp => [' ']
+  | .newColumn => ['\n']
+
+/-- only for items without NBSP / NEW_COLUMN (`fastOk`) -/
+def XItem.expectedFast : XItem → Str
+  | .base i => i.expected
+  | .tab => ['\t']
+  | _ => []
+
+def XItem.fastOk : XItem → Bool
+  | .nbsp | .newColumn => false
+  | _ => true
+
+inductive XOp where
+  | op (o : EdOp)
+  | tab | nbsp | newColumn                                      -- `append(MTextEditor.TAB)` …
+  | bulletList (args : Option Str) (rows : List (Str × Str))     -- `bullet_list(indent, bullets, content)`:
+      -- args = the ParagraphProperties(indent=-indent*0.75, left=indent, tab_stops=(indent,)).tostring() arguments
+  deriving Repr
+
+def rowItems (row : Str × Str) : List XItem :=
+  [.base (.plain row.1), .tab, .base (.plain row.2), .base (.one 'P')]
+
+def XOp.items : XOp → List XItem
+  | .op o => o.items.map .base
+  | .tab => [.tab]
+  | .nbsp => [.nbsp]
+  | .newColumn => [.newColumn]
+  | .bulletList a rows =>
+    [.base .openGroup] ++ (EdOp.paragraph a).items.map .base ++ (rows.map rowItems).flatten ++ [.base .closeGroup]
+
+def XOp.wf : XOp → Bool
+  | .op o => o.wf
+  | .bulletList a rows => (EdOp.paragraph a).wf && rows.all (fun r => r.1.all isPlain && r.2.all isPlain)
+  | _ => true
+
+def XOp.fastOk : XOp → Bool
+  | .nbsp | .newColumn => false
+  | _ => true
+
+def xEditorText (ops : List XOp) : Str := (((ops.map XOp.items).flatten).map XItem.render).flatten
+def xEditorWordsSlow (ops : List XOp) : Str := (((ops.map XOp.items).flatten).map XItem.expectedSlow).flatten
+def xEditorWordsFast (ops : List XOp) : Str := (((ops.map XOp.items).flatten).map XItem.expectedFast).flatten
+
+/-! ### the token stream the parser must return for editor output (`yield_property_commands=True`) -/
+
+def flushWord (word : Str) : List Token := if word.isEmpty then [] else [.word word]
+
+/-- plain text `w` with the word under construction `word`: (tokens emitted, new word under construction) -/
+def plainTokens : Str → Str → List Token × Str
+  | [], word => ([], word)
+  | c :: r, word =>
+    if c = ' ' then (wordAnd word .space ++ (plainTokens r []).1, (plainTokens r []).2)
+    else plainTokens r (word ++ [c])
+
+def Item.tokens (i : Item) (word : Str) : List Token × Str :=
+  match i with
+  | .plain w => plainTokens w word
+  | .cmd d args => (flushWord word ++ [.props ('\\' :: d :: (args ++ [';']))], [])
+  | .one d =>
+    if d = 'P' then (flushWord word ++ [.newParagraph], [])
+    else if d = 'X' then (flushWord word ++ [.wrapAtDimline], [])
+    else (flushWord word ++ [.props ['\\', d]], [])
+  | .openGroup | .closeGroup => (flushWord word, [])
+  | .stack u l t => (flushWord word ++ [.stack u l [t]], [])
+
+def XItem.tokens (x : XItem) (word : Str) : List Token × Str :=
+  match x with
+  | .base i => i.tokens word
+  | .tab => (wordAnd word .tab, [])
+  | .nbsp => (flushWord word ++ [.nbsp], [])
+  | .newColumn => (flushWord word ++ [.newColumn], [])
+
+def xitemsTokens : List XItem → Str → List Token
+  | [], word => flushWord word
+  | x :: xs, word => (x.tokens word).1 ++ xitemsTokens xs (x.tokens word).2
+
+/-- the tokens `MTextParser(str(editor), yield_property_commands=True)` must yield -/
+def xEditorTokens (ops : List XOp) : List Token := xitemsTokens (ops.map XOp.items).flatten []
+
+/-- in range for the token level statement: additionally the numerator of `stack()` has none of `^ / #`
+    (otherwise the parser splits the expression at the first of them: the words are the same, the parts differ) -/
+def EdOp.wfT : EdOp → Bool
+  | .stack u l t => (EdOp.stack u l t).wf && u.all (fun c => c != '^' && c != '/' && c != '#')
+  | o => o.wf
+
+def XOp.wfT : XOp → Bool
+  | .op o => o.wfT
+  | x => x.wf
+
+/-! ### ParagraphProperties: `tostring()` and the values `parse_paragraph_properties` reads back
+
+Values are modelled by their TEXT (`f"{x:g}"` on the way out, the matched RE_FLOAT expression on the way
+in): float-text assumption "for a finite float x the text `f"{x:g}"` matches RE_FLOAT completely and
+`float()` of it is x rounded to 6 significant digits" - the round trip below is exact on the texts.
+`none` stands for the default (0 / DEFAULT alignment), which `tostring()` omits. -/
+
+inductive Tab where
+  | left (f : Str) | center (f : Str) | right (f : Str)
+  deriving Repr, DecidableEq
+
+structure ParaProps where
+  indent : Option Str := none
+  left : Option Str := none
+  right : Option Str := none
+  align : Option Char := none          -- l r c j d
+  tabs : List Tab := []
+  deriving Repr, DecidableEq
+
+def Tab.text : Tab → Str
+  | .left f => f
+  | .center f => 'c' :: f
+  | .right f => 'r' :: f
+
+def commaJoin : List Str → Str
+  | [] => []
+  | [a] => a
+  | a :: b :: l => a ++ ',' :: commaJoin (b :: l)
+
+/-- the argument groups `tostring()` appends (each followed by COMMA, the last COMMA popped) -/
+def ParaProps.pieces (p : ParaProps) : List Str :=
+  (match p.indent with | some f => ['i' :: f] | none => []) ++
+  (match p.left with | some f => ['l' :: f] | none => []) ++
+  (match p.right with | some f => ['r' :: f] | none => []) ++
+  (match p.align with | some c => [['q', c]] | none => []) ++
+  (if p.tabs.isEmpty then [] else ['t' :: commaJoin (p.tabs.map Tab.text)])
+
+/-- `ParagraphProperties.tostring()`: `none` = "", `some a` = `\px` a `;` -/
+def ParaProps.toArgs (p : ParaProps) : Option Str :=
+  if p.pieces.isEmpty then none else some (commaJoin p.pieces)
+
+def alignOf (c : Char) : Option Char :=
+  if c = 'l' ∨ c = 'r' ∨ c = 'c' ∨ c = 'j' ∨ c = 'd' then some c else none
+
+/-- the `t` sub-loop with values (same recursion as `paraTabs`) -/
+def paraTabVals (s : Str) (acc : List Tab) : List Tab :=
+  match hs : s with
+  | [] => acc
+  | c :: r =>
+    -- after the fix: "r" / "c" without a number is not a tab stop (it used to be stored as the bare
+    -- letter, `make_tab_stops` of the layout engine then raised ValueError in `float("")`)
+    if c = 'r' then
+      paraTabVals (paraFloatExpr r).2 (if (paraFloatExpr r).1.isEmpty then acc else acc ++ [.right (paraFloatExpr r).1])
+    else if c = 'c' then
+      paraTabVals (paraFloatExpr r).2 (if (paraFloatExpr r).1.isEmpty then acc else acc ++ [.center (paraFloatExpr r).1])
+    else
+      if he : (paraFloatExpr s).1.isEmpty then paraTabVals r acc
+      else paraTabVals (paraFloatExpr s).2 (acc ++ [.left (paraFloatExpr s).1])
+termination_by s.length
+decreasing_by
+  · have := paraFloatExpr_len r; simp_all; omega
+  · have := paraFloatExpr_len r; simp_all; omega
+  · simp_all
+  · have := paraFloatExpr_lt s (by simpa using he); simp_all
+
+def optText (f : Str) : Option Str := if f.isEmpty then none else some f
+
+/-- the loop of `parse_paragraph_properties` with values (same recursion as `paraLoop`); a command
+    without number sets 0 (`none`) -/
+def paraValsLoop (s : Str) (v : ParaProps) : ParaProps :=
+  match hs : s with
+  | [] => v
+  | c :: r =>
+    if c = 'i' then paraValsLoop (paraFloatExpr r).2 { v with indent := optText (paraFloatExpr r).1 }
+    else if c = 'l' then paraValsLoop (paraFloatExpr r).2 { v with left := optText (paraFloatExpr r).1 }
+    else if c = 'r' then paraValsLoop (paraFloatExpr r).2 { v with right := optText (paraFloatExpr r).1 }
+    else if c = 'q' then
+      paraValsLoop (skipCommas (r.drop 1)) { v with align := (r.head?).bind alignOf }
+    else if c = 't' then { v with tabs := paraTabVals r [] }
+    else paraValsLoop r v
+termination_by s.length
+decreasing_by
+  · have := paraFloatExpr_len r; simp_all; omega
+  · have := paraFloatExpr_len r; simp_all; omega
+  · have := paraFloatExpr_len r; simp_all; omega
+  · have := skipCommas_len (r.drop 1); simp_all; omega
+  · simp_all
+
+/-- `ctx.paragraph` after `\p` args `;` starting from the default context -/
+def paraParse (args : Str) : ParaProps := paraValsLoop args {}
+
+/-! ### line ending helpers: `escape_dxf_line_endings`, `safe_string`, `validator.is_valid_one_line_text` -/
+
+/-- `text.replace("\r", "").replace("\n", "\\P")` -/
+def escapeLineEndings : Str → Str
+  | [] => []
+  | c :: r =>
+    if c = '\r' then escapeLineEndings r
+    else if c = '\n' then '\\' :: 'P' :: escapeLineEndings r
+    else c :: escapeLineEndings r
+
+/-- `safe_string(s, max_len)` for a `str` argument -/
+def safeString (s : Str) (maxLen : Nat) : Str := (escapeLineEndings s).take maxLen
+
+/-- `validator.is_valid_one_line_text` -/
+def isValidOneLine (s : Str) : Bool := s.all (fun c => c != '\n' && c != '\r') && s.getLast? != some '^'
+
+/-! ### MTEXT content as DXF tags: `entities/mtext.py: export_mtext_content`, `tools/text.py: load_mtext_content` -/
+
+/-- `export_mtext_content(text, tagwriter)`: the written (group code, value) tags: chunks of at most 250
+    characters, group code 3 for all but the last, group code 1 for the last (an empty one if there is no chunk) -/
+def exportMTextContent (text : Str) : List (Nat × Str) :=
+  let chunks := splitMText 250 (by decide) (escapeLineEndings text)
+  chunks.dropLast.map (fun c => (3, c)) ++ [(1, chunks.getLast?.getD [])]
+
+/-- `load_mtext_content(tags)`: group code 3 values are concatenated, the last group code 1 value is the tail -/
+def loadMTextContent (tags : List (Nat × Str)) : Str :=
+  let content := ((tags.filter (fun t => t.1 = 3)).map (·.2)).flatten
+  let tail := ((tags.filter (fun t => t.1 = 1)).getLast?.map (·.2)).getD []
+  escapeLineEndings (content ++ tail)
+
+/-! ### split_mtext_string for every size (after the fix: `size < 2` raises ValueError; before the
+    fix `size = 1` never returned for content with a caret and `size = 0` returned `[]`) -/
+
+def splitMTextE (size : Nat) (s : Str) : Except PyErr (List Str) :=
+  if h : 2 ≤ size then .ok (splitMText size h s) else .error .valueError
 
 end EzdxfVerif.Text
